@@ -62,9 +62,37 @@ fn run_fin(v: &Value) -> Value {
     json!({"r":"ok","same": a == b})
 }
 
+/// d_proof_params: the theorems treat the accumulator proof parameters X, Y, Z (and K) as elements with hidden, independent
+/// logs.  In the code that rests on each being the hash-to-curve image of its own input; recompute them that way.
+fn run_params(v: &Value) -> Value {
+    use elliptic_curve::hash2curve::ExpandMsgXmd;
+    const DST: &[u8] = b"BLS12381G1_XMD:SHA-256_SSWU_RO_VB_ACCUMULATOR:1_0_0";
+    let pk = PublicKey::from(&SecretKey::new(None));
+    let nonce = hex::decode(v["nonce"].as_str().unwrap_or("")).unwrap_or_default();
+    let entropy: Option<&[u8]> = if v["no_entropy"] == true { None } else { Some(nonce.as_slice()) };
+    let p = ProofParams::new(pk, entropy);
+    let mut data = vec![0xFFu8; 32];
+    data.extend_from_slice(entropy.unwrap_or(&[]));
+    data.extend_from_slice(&pk.to_bytes());
+    let h = |d: &[u8]| G1Projective::hash::<ExpandMsgXmd<sha2::Sha256>>(d, DST);
+    let z = h(&data);
+    data[0] = 0xFE;
+    let y = h(&data);
+    data[0] = 0xFD;
+    let x = h(&data);
+    data[0] = 0xFC;
+    let k = h(&data);
+    let pts = [p.x, p.y, p.z, p.k];
+    let distinct = (0..4).all(|i| (0..4).all(|j| i == j || pts[i] != pts[j])) && pts.iter().all(|q| !bool::from(q.is_identity()));
+    json!({"r":"ok","x": p.x == x, "y": p.y == y, "z": p.z == z, "k": p.k == k, "distinct": distinct})
+}
+
 pub fn run(op: &str, v: &Value) -> Value {
     if op == "f_accfin" {
         return run_fin(v);
+    }
+    if op == "d_proof_params" {
+        return run_params(v);
     }
     let key = SecretKey(sc(&v["alpha"]));
     let pk = PublicKey::from(&key);
